@@ -18,3 +18,15 @@
 (declare-fun type_default (Iface) String)
 (declare-fun type_hasdefault (Iface) Bool)
 (declare-fun node_module (Iface) String) ; schema.Node.Module()
+; parse.Node accessors (pure)
+(declare-fun node_root (Iface) Iface)        ; Root(): the module in which the node is textually defined
+(declare-fun node_usesroot (Iface) Iface)    ; UsesRoot(): the module that uses it (grouping copies), else Root()
+(declare-fun node_prefix (Iface) String)     ; Prefix()
+(declare-fun node_ns (Iface) String)         ; Ns()
+(declare-fun node_name (Iface) String)       ; Name()
+(declare-fun node_children_of (Iface Int) Slice) ; ChildrenByType(t)
+(declare-fun node_mod_by_prefix (Iface String) Iface)
+(declare-fun node_mod_by_prefix_err (Iface String) Iface)
+(declare-fun node_pfx_ns (Iface String) String)   ; YangPrefixToNamespace(prefix): namespace a prefix denotes for this statement
+(declare-fun node_pfx_err (Iface String) Iface)
+(declare-fun node_path (Iface) String)            ; Path(): argument of the path substatement
